@@ -127,6 +127,10 @@ def single_faults(tc: bool, tier: str) -> List[List]:
     for n in ((99, 101, 255, 256, 257, 300) if tier == "thorough" else (101, 257)):
         for how in ("dynamic", "shared", "accepted"):
             out.append(["flood", n, how])
+    # (vi-b) a long line of dynamically numbered clients, each leaving without a word (end of stream, a frame cut short, an impossible
+    # declared length): the hundred-and-first ordinary newcomer is served like the first
+    for how in ("fin", "truncated", "badlen", "rst-mid-frame"):
+        out.append(["churn", 103, how])
     # (vii) write-side failures
     for role in ("subscriber", "logger", "acked", "failsub", "closedsub", "subscriber+logger", "ackcopy", "ackcopy2"):
         for how in ("fin", "rst"):
@@ -270,6 +274,48 @@ def apply_fault(cx: Ctx, fault: Sequence, name: str = "X", hid=None) -> List[str
                 c.send(P.mkframe(P.MT_CONNECT_V2, P.p_connect_v2(0, 0, 1, 55, i, b"multi"), timecode=cx.tc, src_mod_id=55))
             # how == "accepted": TCP connection only
         w.settle(limit=4 * n + 50)
+        return []
+    if kind == "named-newcomer":
+        # a listener to everything (the manager's own log records included) has reset its connection; in the same round a newcomer
+        # introduces itself with an id and a name
+        _, role, how, v2name = fault
+        tc = cx.tc
+        D = position(cx, name, role, hid)
+        X = cx.new(name + "N")
+        w.settle()  # (the newcomer's TCP connection is accepted: its handshake and the listener's reset are seen in ONE round)
+        D.fin() if how == "fin" else D.rst()
+        X.send(P.mkframe(P.MT_CONNECT_V2, P.p_connect_v2(0, 0, 0, 77, 7, bytes.fromhex(v2name)), timecode=tc, src_mod_id=77))
+        return [name, name + "N"]
+    if kind == "churn":
+        _, n, how = fault
+        tc = cx.tc
+        for i in range(n):
+            c = cx.new(f"{name}C{i}")
+            c.send(P.mkframe(P.MT_CONNECT_V2, P.p_connect_v2(0, 0, 0, 0, 7, b""), timecode=tc))
+            w.settle()
+            if how == "truncated":
+                c.send(P.mkframe(T1, b"x" * 20, timecode=tc)[:30])
+            elif how == "badlen":
+                c.send(P.mkheader(tc, msg_type=T1, num_data_bytes=-5))
+            elif how == "rst-mid-frame":
+                c.send(P.mkframe(T1, b"x" * 20, timecode=tc)[:50])
+            if how == "rst-mid-frame":
+                c.rst()
+            elif how != "badlen":
+                c.fin()
+            w.settle()
+            if how == "badlen":
+                c.fin()
+                w.settle()
+            if not w.alive:
+                return []
+        N_ = cx.new(f"{name}N")
+        N_.send(P.mkframe(P.MT_CONNECT_V2, P.p_connect_v2(0, 0, 0, 0, 7, b""), timecode=tc))
+        w.settle()
+        N_.drain()
+        if w.alive and _acks(N_) != 1:
+            cx.extra.append({"kind": "newcomer-not-acknowledged", "detail": f"after {n} dynamically numbered clients had left ({how}), a request for a dynamic id got {_acks(N_)} acknowledgements",
+                             "connection": getattr(N_.sock, "peer", "?")})
         return []
     if kind == "wdie":
         _, role, how = fault
@@ -486,6 +532,17 @@ def oracle(cx: Ctx, tag: str) -> List[Dict[str, Any]]:
     S.drain()
     if not any(f.msg_type == T1 and f.payload == marker for f in S.inbox[n0:]):
         probs.append({"kind": "bystander-not-served", "at": tag})
+    # ... and what the manager writes to the by-standers (the subscriber, the publisher, the monitor that listens to everything) is
+    # still a sequence of whole frames: being routed to means being able to read what arrives
+    for bn in ("S", "P", "MON"):
+        b = w.clients.get(bn)
+        if b is None or b.gone:
+            continue
+        b.drain()
+        if b.stream_problem or b.leftover():
+            probs.append({"kind": "bystander-stream-damaged", "at": tag, "detail": f"{bn}: {b.stream_problem or ('%d stray bytes' % b.leftover())}"})
+            b.stream_problem = None
+            break
     # fresh well-behaved pair
     k = cx.n
     F1 = cx.new(f"F1_{k}")
@@ -606,6 +663,17 @@ def plan(tier: str):
             for nm in (b"[/x]", b"[bold]x[/bold]", b"[/]", b"[red", b"x[/red]", b"\\[x]", b"[link=a]b", b"{x}%s%d"):
                 for via in ("connect", "setname"):
                     cases.append((tc, lvl, True, 1, False, [["markup", nm.hex(), via]], "single", 0))
+    # the manager run with `-l DEBUG` publishes a record for almost every step it takes: a dead listener is then found in the middle of
+    # whatever the manager was doing (every service order of the round)
+    for lvl in (logging.DEBUG, logging.INFO):
+        for role in ("suball", "logger"):
+            for how in ("rst", "fin"):
+                for nm in (b"newcomer", b""):
+                    for grace in (0, 1):
+                        cases.append((False, lvl, True, grace, False, [["named-newcomer", role, how, nm.hex()]], "same", -1))
+        for f in single_faults(False, tier):
+            if lvl == logging.DEBUG and (f[0] in ("wdie", "slow") or (f[0] == "adie" and f[3] in (1, 2))):
+                cases.append((False, lvl, True, 1, False, [f], "single", 0))
     if tier == "quick":
         # the manager started with the timecode header layout (its own messages, notices included, are built around that header):
         # the families in which the manager itself has to write or report
